@@ -17,7 +17,11 @@ import (
 	"strings"
 )
 
-var nsNames = []string{"NsA", "NsB\\Deep", "NsC"}
+// namespace names carry a per-program tag: all files of a batch are parsed by one compile run, and a class
+// name may be declared only once in it
+func nsNamesFor(tag string) []string {
+	return []string{tag + "NsA", tag + "NsB\\Deep", tag + "NsC"}
+}
 
 func nsOpen(bracketed bool, ns string) string {
 	if bracketed {
@@ -42,21 +46,25 @@ type nsForm struct {
 	name string
 	use  func(own, other string) string // `use` line for the caller section ("" if none)
 	call func(own, other string) string
+	// plain: the parser accepts this form only directly after `echo` and in an arrow function
+	// (`namespace\f()` inside a function body, a closure or try is a parse error in this language)
+	plain bool
 }
 
 var nsFuncForms = []nsForm{
-	{"fn-unqualified", nil, func(o, x string) string { return "tag()" }},
-	{"fn-fq-own", nil, func(o, x string) string { return "\\" + o + "\\tag()" }},
-	{"fn-fq-other", nil, func(o, x string) string { return "\\" + x + "\\tag()" }},
-	{"fn-namespace-kw", nil, func(o, x string) string { return "namespace\\tag()" }},
-	{"fn-use-function", func(o, x string) string { return "use function " + x + "\\tag as otag;\n" }, func(o, x string) string { return "otag()" }},
+	{name: "fn-unqualified", call: func(o, x string) string { return "tag()" }},
+	{name: "fn-fq-own", call: func(o, x string) string { return "\\" + o + "\\tag()" }},
+	{name: "fn-fq-other", call: func(o, x string) string { return "\\" + x + "\\tag()" }},
+	{name: "fn-namespace-kw", call: func(o, x string) string { return "namespace\\tag()" }, plain: true},
+	// `use function X\f` is not in the alphabet: the parser demands the function to be loaded at parse time
+	// ("函数先加载后才能使用") and rejects it in every placement, interpreted and compiled alike
 }
 
 var nsConstForms = []nsForm{
-	{"const-unqualified", nil, func(o, x string) string { return "K" }},
-	{"const-fq-other", nil, func(o, x string) string { return "\\" + x + "\\K" }},
-	{"const-namespace-kw", nil, func(o, x string) string { return "namespace\\K" }},
-	{"const-use-const", func(o, x string) string { return "use const " + x + "\\K as OK;\n" }, func(o, x string) string { return "OK" }},
+	{name: "const-unqualified", call: func(o, x string) string { return "K" }},
+	{name: "const-fq-other", call: func(o, x string) string { return "\\" + x + "\\K" }},
+	{name: "const-namespace-kw", call: func(o, x string) string { return "namespace\\K" }},
+	{name: "const-use-const", use: func(o, x string) string { return "use const " + x + "\\K as OK;\n" }, call: func(o, x string) string { return "OK" }},
 }
 
 func nsIdent(ns string) string { return strings.ReplaceAll(ns, "\\", "_") }
@@ -71,6 +79,10 @@ func nsSection(ns, other string, f *nsForm, withClass bool) string {
 	}
 	ctx := func(pos string) {
 		c := f.call(ns, other)
+		if f.plain {
+			fmt.Fprintf(&b, "$ar_%s_%s = fn() => %s;\necho %q;\necho %s;\necho \"\\n\";\n", pos, id, c, id+":top-"+pos+"=", c)
+			return
+		}
 		fmt.Fprintf(&b, "function cf_%s_%s() { return %s; }\n", pos, id, c)
 		fmt.Fprintf(&b, "$cl_%s_%s = function() { return %s; };\n$ar_%s_%s = fn() => %s;\n", pos, id, c, pos, id, c)
 		b.WriteString(nsLine(id+":top-"+pos, c))
@@ -85,16 +97,22 @@ func nsSection(ns, other string, f *nsForm, withClass bool) string {
 	if f != nil {
 		ctx("after")
 		for _, pos := range []string{"before", "after"} {
+			if f.plain {
+				b.WriteString(nsLine(id+":arrow-"+pos, fmt.Sprintf("$ar_%s_%s()", pos, id)))
+				continue
+			}
 			b.WriteString(nsLine(id+":fn-"+pos, fmt.Sprintf("cf_%s_%s()", pos, id)))
 			b.WriteString(nsLine(id+":closure-"+pos, fmt.Sprintf("$cl_%s_%s()", pos, id)))
 			b.WriteString(nsLine(id+":arrow-"+pos, fmt.Sprintf("$ar_%s_%s()", pos, id)))
 		}
 	}
-	b.WriteString(nsLine(id+":own", "tag() . \"/\" . K"))
+	b.WriteString(nsLine(id+":own-fn", "tag()"))
+	b.WriteString(nsLine(id+":own-const", "K"))
 	return b.String()
 }
 
-func nsFile(bracketed bool, nsec, caller int, f *nsForm, withClass bool) string {
+func nsFile(tag string, bracketed bool, nsec, caller int, f *nsForm, withClass bool) string {
+	nsNames := nsNamesFor(tag)
 	var b strings.Builder
 	b.WriteString("<?php\n")
 	for i := 0; i < nsec; i++ {
@@ -111,13 +129,12 @@ func nsFile(bracketed bool, nsec, caller int, f *nsForm, withClass bool) string 
 
 // class / cross-file forms used from an entry file against a two-section library
 var nsLibForms = []nsForm{
-	{"lib-fq-function", nil, func(o, x string) string { return "\\" + x + "\\tag()" }},
-	{"lib-use-function", func(o, x string) string { return "use function " + x + "\\tag as otag;\n" }, func(o, x string) string { return "otag()" }},
-	{"lib-fq-static", nil, func(o, x string) string { return "\\" + x + "\\Box::tag()" }},
-	{"lib-use-class-static", func(o, x string) string { return "use " + x + "\\Box;\n" }, func(o, x string) string { return "Box::tag()" }},
-	{"lib-use-alias-static", func(o, x string) string { return "use " + x + "\\Box as B2;\n" }, func(o, x string) string { return "B2::tag()" }},
-	{"lib-method-calls-section-function", nil, func(o, x string) string { return "(new \\" + x + "\\Box())->who()" }},
-	{"lib-fq-const", nil, func(o, x string) string { return "\\" + x + "\\K" }},
+	{name: "lib-fq-function", call: func(o, x string) string { return "\\" + x + "\\tag()" }},
+	{name: "lib-fq-static", call: func(o, x string) string { return "\\" + x + "\\Box::tag()" }},
+	{name: "lib-use-class-static", use: func(o, x string) string { return "use " + x + "\\Box;\n" }, call: func(o, x string) string { return "Box::tag()" }},
+	{name: "lib-use-alias-static", use: func(o, x string) string { return "use " + x + "\\Box as B2;\n" }, call: func(o, x string) string { return "B2::tag()" }},
+	{name: "lib-method-calls-section-function", call: func(o, x string) string { return "(new \\" + x + "\\Box())->who()" }},
+	{name: "lib-fq-const", call: func(o, x string) string { return "\\" + x + "\\K" }},
 }
 
 func nsPrograms(quick bool) []item {
@@ -126,6 +143,11 @@ func nsPrograms(quick bool) []item {
 	styleName := map[bool]string{false: "semicolon", true: "braces"}
 	for _, br := range styles {
 		for nsec := 1; nsec <= 3; nsec++ {
+			if br && nsec != 2 {
+				// the body of a bracketed `namespace X { }` is accepted but never executed by this language
+				// (interpreted and compiled alike print nothing): one section count is enough to pin that
+				continue
+			}
 			for caller := 0; caller < nsec; caller++ {
 				forms := append(append([]nsForm(nil), nsFuncForms...), nsConstForms...)
 				for fi := range forms {
@@ -133,13 +155,12 @@ func nsPrograms(quick bool) []item {
 					if nsec == 1 && (strings.Contains(f.name, "other") || f.use != nil) {
 						continue // no other section to point at
 					}
-					out = append(out, item{ID: fmt.Sprintf("ns/%s/%s/%dsec-caller%d", f.name, styleName[br], nsec, caller), Src: nsFile(br, nsec, caller, f, false)})
+					out = append(out, item{ID: fmt.Sprintf("ns/%s/%s/%dsec-caller%d", f.name, styleName[br], nsec, caller), Src: nsFile(fmt.Sprintf("P%d", len(out)), br, nsec, caller, f, false)})
 				}
 			}
 		}
 		// two files: the library holds the sections, the entry (one or two sections of its own) calls in
-		for nsec := 2; nsec <= 3; nsec++ {
-			lib := nsFile(br, nsec, -1, nil, true)
+		for nsec := 2; nsec <= 3 && !br; nsec++ {
 			for target := 0; target < nsec; target++ {
 				if quick && nsec == 3 && target == 1 {
 					continue
@@ -147,10 +168,13 @@ func nsPrograms(quick bool) []item {
 				for fi := range nsLibForms {
 					f := &nsLibForms[fi]
 					for _, entrySecs := range []int{1, 2} {
+						tag := fmt.Sprintf("P%d", len(out))
+						nsNames := nsNamesFor(tag)
+						lib := nsFile(tag, br, nsec, -1, nil, true)
 						var b strings.Builder
 						b.WriteString("<?php\n")
 						for e := 0; e < entrySecs; e++ {
-							ens := fmt.Sprintf("App\\E%d", e)
+							ens := fmt.Sprintf("%sApp\\E%d", tag, e)
 							b.WriteString(nsOpen(br, ens))
 							if f.use != nil {
 								b.WriteString(f.use(ens, nsNames[target]))
@@ -159,7 +183,7 @@ func nsPrograms(quick bool) []item {
 							fmt.Fprintf(&b, "function tag() { return \"%s.tag\"; }\nfunction viafn_%d() { return %s; }\n", nsIdent(ens), e, c)
 							b.WriteString(nsLine(nsIdent(ens)+":top", c))
 							b.WriteString(nsLine(nsIdent(ens)+":fn", fmt.Sprintf("viafn_%d()", e)))
-							b.WriteString(nsLine(nsIdent(ens)+":own", "tag()"))
+							b.WriteString(nsLine(nsIdent(ens)+":own-fn", "tag()"))
 							b.WriteString(nsClose(br))
 						}
 						out = append(out, item{ID: fmt.Sprintf("nslib/%s/%s/%dsec-target%d-entry%d", f.name, styleName[br], nsec, target, entrySecs), Src: b.String(), Libs: []string{lib}})
@@ -169,4 +193,57 @@ func nsPrograms(quick bool) []item {
 		}
 	}
 	return out
+}
+
+// nsKinds reduces a diverging program of the family to the call forms that diverge: output lines are
+// "<section>:<context>=<value>"; every section prints its own unqualified function call (own-fn) and constant
+// (own-const), the caller section the form under test. The helper functions of the function context are
+// themselves called unqualified, so a diverging own-fn line explains everything else in the program.
+func nsKinds(id, compiledOut, interpOut string) []string {
+	parse := func(out string) map[string]string {
+		m := map[string]string{}
+		for _, l := range strings.Split(out, "\n") {
+			if i := strings.Index(l, "="); i > 0 {
+				m[l[:i]] = l[i+1:]
+			}
+		}
+		return m
+	}
+	cm, im := parse(compiledOut), parse(interpOut)
+	form := ""
+	if p := strings.Split(id, "/"); len(p) >= 2 {
+		form = p[1]
+	}
+	ownFn, ownConst, other := false, false, false
+	seen := map[string]bool{}
+	for _, m := range []map[string]string{cm, im} {
+		for label := range m {
+			if seen[label] || cm[label] == im[label] {
+				continue
+			}
+			seen[label] = true
+			switch {
+			case strings.HasSuffix(label, ":own-fn"):
+				ownFn = true
+			case strings.HasSuffix(label, ":own-const"):
+				ownConst = true
+			default:
+				other = true
+			}
+		}
+	}
+	switch {
+	case ownFn:
+		return []string{"fn-unqualified"}
+	case !ownConst && !other:
+		return nil
+	}
+	var ks []string
+	if ownConst {
+		ks = append(ks, "const-unqualified")
+	}
+	if other && !(ownConst && form == "const-unqualified") {
+		ks = append(ks, form)
+	}
+	return ks
 }
